@@ -197,8 +197,8 @@ theorem newCopies_items (s : Sys F) (ev : Ev) (tag i : Nat) :
 /-- **Ghost step, one link.**  With distinct conn ids and the mirror aligned (`b.queued` erases to the
 link's queue), the ghost update is exactly one of *held*, *sent*, *discarded*, and each agrees with what
 the real step did to the link. -/
-theorem stepBins_cases (s : Sys F) (ev : Ev) (hnd : (ids s.links).Nodup) (k tag i : Nat) (l : FLink F) (b : Bins)
-    (hl : s.links[i]? = some l) :
+theorem stepBins_cases (s : Sys F) (ev : Ev) (hnd : (ids s.links).Nodup) (hnr : ev.isReload = false)
+    (k tag i : Nat) (l : FLink F) (b : Bins) (hl : s.links[i]? = some l) :
     ∃ l', (step s ev).1.links[i]? = some l' ∧ l'.core.connId = l.core.connId ∧
       ((stepBins s ev k tag i b = { b with queued := b.queued ++ newCopies s ev tag i } ∧
           l'.queue = l.queue ++ appended s ev i ∧ dataWire ev (step s ev).2 l.core.connId = []) ∨
@@ -208,7 +208,7 @@ theorem stepBins_cases (s : Sys F) (ev : Ev) (hnd : (ids s.links).Nodup) (k tag 
        (stepBins s ev k tag i b =
             { b with queued := [], lost := b.lost ++ (b.queued ++ newCopies s ev tag i).map fun x => (k, x) } ∧
           l'.queue = [] ∧ dataWire ev (step s ev).2 l.core.connId = [] ∧ LossCause s ev i l l')) := by
-  obtain ⟨-, h2⟩ := step_link s ev hnd
+  obtain ⟨-, h2⟩ := step_link s ev hnd hnr
   obtain ⟨l', g1, g2, -, -⟩ := h2 i l hl
   refine ⟨l', g1, g2.1, ?_⟩
   unfold stepBins
@@ -644,11 +644,11 @@ theorem bins_get_of_lt {g : G F} (hlen : g.bins.length = g.sys.links.length) {i 
     ∃ b, g.bins[i]? = some b := ⟨g.bins[i]'(by omega), List.getElem?_eq_getElem (by omega)⟩
 
 /-- **The invariant is preserved by every event.** -/
-theorem GInv.step {g : G F} (h : GInv g) (ev : Ev) : GInv (stepG g ev) := by
+theorem GInv.step {g : G F} (h : GInv g) (ev : Ev) (hnr : ev.isReload = false) : GInv (stepG g ev) := by
   have hlen' : (stepG g ev).bins.length = (stepG g ev).sys.links.length := by
     simp only [stepG, List.length_mapIdx]
-    rw [h.len, (step_link g.sys ev h.inv.nodup).1]
-  refine ⟨h.inv.step ev, hlen', ?_, ?_, ?_, ?_, ?_⟩
+    rw [h.len, (step_link g.sys ev h.inv.nodup hnr).1]
+  refine ⟨h.inv.step ev hnr, hlen', ?_, ?_, ?_, ?_, ?_⟩
   · -- alignment
     intro i b' hb'
     rw [stepG_bins_get] at hb'
@@ -659,7 +659,7 @@ theorem GInv.step {g : G F} (h : GInv g) (ev : Ev) : GInv (stepG g ev) := by
       have hi : i < g.sys.links.length := by
         rw [← h.len]; exact (List.getElem?_eq_some_iff.1 hb).1
       have hl : g.sys.links[i]? = some g.sys.links[i] := List.getElem?_eq_getElem hi
-      obtain ⟨l', g1, -, hc⟩ := stepBins_cases g.sys ev h.inv.nodup g.clock g.next i _ b hl
+      obtain ⟨l', g1, -, hc⟩ := stepBins_cases g.sys ev h.inv.nodup hnr g.clock g.next i _ b hl
       have hal := h.aligned i b hb
       rw [queueOf_of_get hl] at hal
       show b'.queued.map (·.item) = queueOf (Sys.step g.sys ev).1 i
@@ -725,10 +725,10 @@ theorem GInv.step {g : G F} (h : GInv g) (ev : Ev) : GInv (stepG g ev) := by
       · cases hx
 
 /-- **…hence along every run.** -/
-theorem GInv.run {g : G F} (h : GInv g) (evs : List Ev) : GInv (runG g evs) := by
+theorem GInv.run {g : G F} (h : GInv g) (evs : List Ev) (hnr : NoReload evs) : GInv (runG g evs) := by
   induction evs generalizing g with
   | nil => exact h
-  | cons ev evs ih => exact ih (h.step ev)
+  | cons ev evs ih => exact ih (h.step ev hnr.head) hnr.tail
 
 /-! ## The ghost bins against the real logs of the run -/
 
@@ -737,7 +737,7 @@ theorem bytes_of_items (xs : List GItem) : xs.map (·.bytes) = bytesOf (xs.map (
 
 /-- **The wire bin is the real wire log**: erased to bytes, what the ghost filed under `wire` for link `i`
 during a run is exactly what the run's events put on that link's socket (data path), in order. -/
-theorem runG_wire (g : G F) (h : GInv g) (evs : List Ev) (i : Nat) (b b' : Bins) (hb : g.bins[i]? = some b)
+theorem runG_wire (g : G F) (h : GInv g) (evs : List Ev) (hnr : NoReload evs) (i : Nat) (b b' : Bins) (hb : g.bins[i]? = some b)
     (hb' : (runG g evs).bins[i]? = some b') :
     b'.wire.map (·.bytes) = b.wire.map (·.bytes) ++ wireLog g.sys evs i := by
   induction evs generalizing g b with
@@ -748,11 +748,11 @@ theorem runG_wire (g : G F) (h : GInv g) (evs : List Ev) (i : Nat) (b b' : Bins)
     have hl : g.sys.links[i]? = some g.sys.links[i] := List.getElem?_eq_getElem hi
     have hb1 : (stepG g ev).bins[i]? = some (stepBins g.sys ev g.clock g.next i b) := by
       rw [stepG_bins_get, hb]; rfl
-    rw [ih (stepG g ev) (h.step ev) _ hb1 hb']
+    rw [ih (stepG g ev) (h.step ev hnr.head) hnr.tail _ hb1 hb']
     simp only [wireLog, connIdOf_of_get hl]
     have hal := h.aligned i b hb
     rw [queueOf_of_get hl] at hal
-    obtain ⟨l', -, -, hc⟩ := stepBins_cases g.sys ev h.inv.nodup g.clock g.next i _ b hl
+    obtain ⟨l', -, -, hc⟩ := stepBins_cases g.sys ev h.inv.nodup hnr.head g.clock g.next i _ b hl
     have hsys : (stepG g ev).sys = (Sys.step g.sys ev).1 := rfl
     rw [hsys, ← List.append_assoc]
     congr 1
@@ -765,7 +765,7 @@ theorem runG_wire (g : G F) (h : GInv g) (evs : List Ev) (i : Nat) (b b' : Bins)
 def Bins.probes (b : Bins) : Nat := b.all.countP isP
 
 /-- **The probe copies of the ghost are the probe copies counted by `C01_probe_rate`.** -/
-theorem runG_probes (g : G F) (h : GInv g) (evs : List Ev) (i : Nat) (b b' : Bins)
+theorem runG_probes (g : G F) (h : GInv g) (evs : List Ev) (hnr : NoReload evs) (i : Nat) (b b' : Bins)
     (hb : g.bins[i]? = some b) (hb' : (runG g evs).bins[i]? = some b') :
     b'.probes = b.probes + probeCopies g.sys evs i := by
   induction evs generalizing g b with
@@ -775,7 +775,7 @@ theorem runG_probes (g : G F) (h : GInv g) (evs : List Ev) (i : Nat) (b b' : Bin
     have hi : i < g.sys.links.length := by rw [← h.len]; exact (List.getElem?_eq_some_iff.1 hb).1
     have hb1 : (stepG g ev).bins[i]? = some (stepBins g.sys ev g.clock g.next i b) := by
       rw [stepG_bins_get, hb]; rfl
-    rw [ih (stepG g ev) (h.step ev) _ hb1 hb']
+    rw [ih (stepG g ev) (h.step ev hnr.head) hnr.tail _ hb1 hb']
     simp only [probeCopies, Bins.probes]
     rw [stepBins_all_count, newCopies_countP g.sys ev g.next i hi]
     have hsys : (stepG g ev).sys = (Sys.step g.sys ev).1 := rfl
@@ -798,7 +798,7 @@ theorem runG_accepted (g : G F) (evs : List Ev) :
 /-- **Nothing is filed under `lost` without a cause.**  Every entry the run adds to link `i`'s `lost` bin
 carries the index `k` of an event of the run, and that event — applied to the state the run had reached —
 discarded link `i`'s queue for one of the four admissible reasons (`LossCause`). -/
-theorem runG_lost (g : G F) (h : GInv g) (evs : List Ev) (i : Nat) (b b' : Bins) (hb : g.bins[i]? = some b)
+theorem runG_lost (g : G F) (h : GInv g) (evs : List Ev) (hnr : NoReload evs) (i : Nat) (b b' : Bins) (hb : g.bins[i]? = some b)
     (hb' : (runG g evs).bins[i]? = some b') :
     ∃ extra, b'.lost = b.lost ++ extra ∧ ∀ kx ∈ extra, ∃ k ev l l', kx.1 = g.clock + k ∧ evs[k]? = some ev ∧
       (run g.sys (evs.take k)).1.links[i]? = some l ∧
@@ -812,8 +812,8 @@ theorem runG_lost (g : G F) (h : GInv g) (evs : List Ev) (i : Nat) (b b' : Bins)
     have hl : g.sys.links[i]? = some g.sys.links[i] := List.getElem?_eq_getElem hi
     have hb1 : (stepG g ev).bins[i]? = some (stepBins g.sys ev g.clock g.next i b) := by
       rw [stepG_bins_get, hb]; rfl
-    obtain ⟨extra1, e1, hx1⟩ := ih (stepG g ev) (h.step ev) _ hb1 hb'
-    obtain ⟨l', g1, -, hc⟩ := stepBins_cases g.sys ev h.inv.nodup g.clock g.next i _ b hl
+    obtain ⟨extra1, e1, hx1⟩ := ih (stepG g ev) (h.step ev hnr.head) hnr.tail _ hb1 hb'
+    obtain ⟨l', g1, -, hc⟩ := stepBins_cases g.sys ev h.inv.nodup hnr.head g.clock g.next i _ b hl
     have hshift : ∀ kx ∈ extra1, ∃ k ev' l l', kx.1 = g.clock + k ∧ (ev :: evs)[k]? = some ev' ∧
         (run g.sys ((ev :: evs).take k)).1.links[i]? = some l ∧
         (Sys.step (run g.sys ((ev :: evs).take k)).1 ev').1.links[i]? = some l' ∧
@@ -985,12 +985,13 @@ theorem ginit_bins (s : Sys F) (i : Nat) (b : Bins) (hb : (ginit s).bins[i]? = s
   have hx' : x ∈ tagFrom m l.queue := by rw [h2] at hx; simpa [Bins.all] using hx
   simp [isP, (mem_tagFrom hx').2.2.1]
 
-theorem run_length (s : Sys F) (h : Inv s) (evs : List Ev) : (run s evs).1.links.length = s.links.length := by
+theorem run_length (s : Sys F) (h : Inv s) (evs : List Ev) (hnr : NoReload evs) :
+    (run s evs).1.links.length = s.links.length := by
   induction evs generalizing s with
   | nil => rfl
   | cons ev evs ih =>
     simp only [run]
-    rw [ih _ (h.step ev), (step_link s ev h.nodup).1]
+    rw [ih _ (h.step ev hnr.head) hnr.tail, (step_link s ev h.nodup hnr.head).1]
 
 /-- The bins of link `i` after a run from `ginit s`, with the bins it started from. -/
 theorem runG_bins_get (g : G F) (evs : List Ev) (i : Nat) (b' : Bins) (hb' : (runG g evs).bins[i]? = some b') :
